@@ -142,6 +142,45 @@ func genHeaderValue(r *Rng) string {
 	return sb.String()
 }
 
+// genFoldEdge: printable-ASCII values whose words end right at, just before or just after the points
+// where writeHeader folds, with leading / trailing / doubled blanks (empty words at a fold point)
+func genFoldEdge(r *Rng) string {
+	var sb strings.Builder
+	nl := 1 + r.Intn(3)
+	for i := 0; i < nl; i++ {
+		// one line worth of text: a run that fills the budget up to a few characters around the limit
+		total := 55 + r.Intn(26)
+		for total > 0 {
+			l := total
+			if r.Chance(50) {
+				l = 1 + r.Intn(total)
+			}
+			sb.WriteString(strings.Repeat(string(rune('a'+r.Intn(26))), l))
+			total -= l
+			if total > 0 {
+				sb.WriteByte(' ')
+				total--
+			}
+		}
+		switch r.Intn(4) {
+		case 0:
+			sb.WriteString(" ")
+		case 1:
+			sb.WriteString("  ")
+		case 2:
+			if i < nl-1 {
+				sb.WriteString(" ")
+			}
+		default:
+			sb.WriteString(" ")
+		}
+	}
+	if r.Chance(30) {
+		return strings.TrimRight(sb.String(), " ")
+	}
+	return sb.String()
+}
+
 var headerKeys = []string{"Subject", "X-Custom-Header", "To", "Content-Type", "X", "X-A-Very-Long-Header-Name-That-Takes-A-Lot-Of-The-Line-Budget-Away-From-Values"}
 
 // adversarial free text for setters: full byte range, CR/LF, NUL, control, non-ASCII
